@@ -39,6 +39,12 @@ LEVEL_TEXT += (
     "(diagonal and right-hand side at D, copy unless overwrite) and its "
     "default penalty is a single number (rank inference); index sets "
     "returned by _flatten_dofs are repeat-free.")
+LEVEL_TEXT += (
+    " Added in the hunting round (defects found by independent agents "
+    "on the unchanged tree, DESIGN.md 9.4 / 9.6): "
+    "lossy stores into copies of operands (dtype flow), constrained set "
+    "repeat-free on every path of _init_bc, storage format established "
+    "before raw CSR arrays are read, data-dependent divisors guarded.")
 LEVEL_NOTE = (
     "Trusted: scipy.sparse indexing A[I][:, D], setdiag, numpy.setdiff1d / "
     "unique / arange / nonzero semantics. Not decided: floating-point "
